@@ -105,7 +105,7 @@ func c10fd() {
 				go func() {
 					req := sasl.Request{Login: "root", Password: "rootpw", Service: "s"}
 					b, _ := req.Marshal()
-					late.Write(b) //nolint:errcheck
+					late.Write(b)                                          //nolint:errcheck
 					late.SetReadDeadline(time.Now().Add(40 * time.Second)) //nolint:errcheck
 					var resp sasl.Response
 					if err := resp.Decode(late); err != nil {
